@@ -754,6 +754,9 @@ func (e *Engine) applyContractSig(st *State, fr *Frame, x *ssa.Call, name string
 		}
 		ac := &specCtx{e: e, st: st, env: env, heaps: st.heaps, oldHeaps: atomicPre, pkg: pre.pkg, iters: e.freshIters(st, name)}
 		for _, a := range spec.Atomic {
+			if mentions(a.E, callLogBuiltins) {
+				continue // talks about the callee's own call log, which the caller cannot see
+			}
 			st.assume(ac.evalBool(a.E))
 		}
 		st.cs = append(st.cs, critSection{mode: "call", mutex: name, pre: atomicPre, post: copyHeaps(st.heaps)})
@@ -795,6 +798,9 @@ func (e *Engine) applyContractSig(st *State, fr *Frame, x *ssa.Call, name string
 					}
 				}
 			}
+		}
+		if mentions(en.E, callLogBuiltins) {
+			continue // talks about the callee's own call log, which the caller cannot see
 		}
 		if en.Except != nil {
 			// clause with a known finding: callers may rely on it only outside the recorded region
@@ -877,6 +883,8 @@ func (e *Engine) havocRegionR(st *State, fr *Frame, r region, in ssa.Instruction
 		panic(unsupported("modifies region kind " + r.kind))
 	}
 }
+
+var callLogBuiltins = []string{"called", "notCalled", "callCount", "callArg", "callRes", "callSeq"}
 
 func mentions(x Expr, names []string) bool {
 	found := false
